@@ -7,6 +7,28 @@ LEAN_TARGETS = ["VectorModel.Props.C04", "VectorModel.Refine.Planar", "VectorMod
 THEOREM_FILES = ["VectorModel/Props/C04.lean"]
 NOT_COVERED = ["round trip to_S(to_T(v)) = v up to rounding: the real-number round-trip lemmas are the accessor refinements of "
                "Refine/SpatialAcc.lean and Refine/LorentzAcc.lean (counted under C01); float64 rounding is not modelled",
-               "NumPy / Awkward backends: bit-for-bit retention is checked numerically by the C03 value lattice (to_* and to_VectorND calls)"]
+               "NumPy / Awkward internals (structured dtypes, ak.zip): the dimension-change lattice compares them with the object backend on float64/int64/float32 columns"]
 METHODS = ['to_Vector2D', 'to_Vector3D', 'to_Vector4D', 'to_2D', 'to_3D', 'to_4D', 'like'] + [n for n, _, _ in symobj.to_names()]
-correspondence = sym_correspondence(METHODS, "c04")
+_sym = sym_correspondence(METHODS, "c04")
+
+
+def correspondence(ctx):
+    """exact symbolic correspondence on the object backend + the dimension-change lattice on NumPy / Awkward arrays whose columns
+    are float64, int64 or float32 (retained coordinates and imputed keyword values compared exactly with the object backend)"""
+    from harness import backends
+    from harness import common as C
+    out = _sym(ctx)
+    bad, st = backends.dimension_lattice(ctx)
+    out["stats"].update(st)
+    out["stats"]["traces_validated_against_impl"] = out["stats"].get("traces_validated_against_impl", 0) + st["dimension_elements"]
+    seen = set()
+    for a, b, k in bad:
+        out["disagreements"].append(f"{a} :: {b}"[:300])
+        if k not in seen:
+            seen.add(k)
+            out["failing_inputs"].append({"key": k, "what": f"{a}: {b}"[:400], "code": (
+                "import sys; sys.path.insert(0, %r); sys.path.insert(0, %r)\nfrom harness import backends as Bk\n"
+                "class X: seed=%d; tier=%r\nbad, _ = Bk.dimension_lattice(X)\nhit=[b for b in bad if b[2]==%r]\n"
+                "assert not hit, hit[0][0] + ' :: ' + hit[0][1]\n" % (C.VERIF, C.VERIF + "/tools", ctx.seed, ctx.tier, k))})
+    out["ok"] = out["ok"] and not bad
+    return out
